@@ -164,6 +164,15 @@ def get_offset(idx, strides):
     return sum(ii * ss for ii, ss in zip(idx, strides))
 
 
+def get_item(value, idx):
+    """value[idx], also for nested lists indexed by a tuple"""
+    if isinstance(idx, tuple) and isinstance(value, (list, tuple)):
+        for ii in idx:
+            value = value[ii]
+        return value
+    return value[idx]
+
+
 def bound_check(index, shape):
     for ii, ss in zip(index, shape):
         if ii < 0 or ii >= ss:
@@ -397,7 +406,9 @@ class Array(metaclass=MetaArray):
                 offsets = np.empty(shape, dtype="int64")
                 offset += items * 8
                 for idx in iter_index(shape, order):
-                    extra[idx] = cls._itemtype._inspect_args(value[idx])
+                    extra[idx] = cls._itemtype._inspect_args(
+                        get_item(value, idx)
+                    )
                     offsets[idx] = offset
                     offset += extra[idx].size
                 size = _to_slot_size(offset)
